@@ -79,7 +79,11 @@ func (m *C20) evalTriggers(w *chain.World, ctx sdk.Context, msg *tstypes.MsgExec
 		pin := w.App.AmmKeeper.CalculateUSDValue(ctx, o.OrderPrice.BaseDenom, math.NewInt(1))
 		pout := w.App.AmmKeeper.CalculateUSDValue(ctx, o.OrderPrice.QuoteDenom, math.NewInt(1))
 		if pin.IsZero() || pout.IsZero() {
-			s.trigTxt = "no market price"
+			// no market rate can be formed (one side has neither a live oracle price nor a pool
+			// route to price it): no trigger condition is satisfied, the order must stay as it is
+			f := false
+			s.trig = &f
+			s.trigTxt = fmt.Sprintf("no market price (usd value of one %s: %s, of one %s: %s)", o.OrderPrice.BaseDenom, pin, o.OrderPrice.QuoteDenom, pout)
 			continue
 		}
 		market := pin.Quo(pout)
@@ -104,7 +108,9 @@ func (m *C20) evalTriggers(w *chain.World, ctx sdk.Context, msg *tstypes.MsgExec
 		o, _ := k.GetPendingPerpetualOrder(ctx, id)
 		market, err := w.App.PerpetualKeeper.GetAssetPrice(ctx, o.TradingAsset)
 		if err != nil {
-			s.trigTxt = "no market price"
+			f := false
+			s.trig = &f
+			s.trigTxt = "no market price: " + err.Error()
 			continue
 		}
 		var t bool
